@@ -877,7 +877,11 @@ class StubsStringGenerator:
         inner_indentations: str,
         already_defined_names: set[str],
     ) -> str:
-        superclass_class = self._get_class_in_package(superclass)
+        try:
+            superclass_class = self._get_class_in_package(superclass)
+        except LookupError:
+            # An internal class of another library (e.g. "argparse._ActionsContainer"): its members are not known
+            return ""
 
         # Methods
         superclass_methods_text, existing_names = self._create_class_method_string(
